@@ -56,6 +56,10 @@ def expressions(tier):
         for k in ("and", "or"):
             for n in range(0, max_arity + 1):
                 res += [(k,) + c for c in itertools.product(pool, repeat=n)]
+        # the node classes built directly with the arities the factories fold away (round 10)
+        for k in ("andn", "orn"):
+            for n in (0, 1):
+                res += [(k,) + c for c in itertools.product(pool, repeat=n)]
         return res
 
     l1_full = logic(base, 3)
